@@ -8,6 +8,9 @@ use std::sync::{Arc, Barrier, Mutex};
 
 pub struct C19;
 
+/// (threads, include depth, open-file limit of the child)
+const FD_CONFIGS: &[(u64, u64, u64)] = &[(24, 15, 256), (32, 30, 512), (16, 60, 512)];
+
 impl Prop for C19 {
     fn id(&self) -> &'static str {
         "C19"
@@ -26,9 +29,44 @@ impl Prop for C19 {
         ]
     }
     fn campaigns(&self, _ctx: &Ctx) -> Vec<Campaign> {
-        vec![Campaign { name: "plans", kind: Kind::Random { quick: 240, thorough: 2400 }, tape_len: 400 }]
+        vec![
+            Campaign { name: "plans", kind: Kind::Random { quick: 240, thorough: 2400 }, tape_len: 400 },
+            Campaign { name: "fd-pressure", kind: Kind::Enumerated { count: FD_CONFIGS.len() }, tape_len: 1 },
+        ]
     }
-    fn run(&self, ctx: &Ctx, _campaign: &str, t: &mut Tape, st: &mut Stats) -> Result<(), Fail> {
+    fn run(&self, ctx: &Ctx, campaign: &str, t: &mut Tape, st: &mut Stats) -> Result<(), Fail> {
+        if campaign == "fd-pressure" {
+            // concurrent calls over legal include chains in a child whose open-file limit is low: a call must not hold
+            // one descriptor per nesting level (then it fails with EMFILE only when others run at the same time)
+            st.eval();
+            let (threads, depth, nofile) = FD_CONFIGS[t.raw() as usize % FD_CONFIGS.len()];
+            let dir = ctx.scratch.join(format!("fd-{}-{}-{}", threads, depth, nofile));
+            let _ = std::fs::remove_dir_all(&dir);
+            std::fs::create_dir_all(&dir).map_err(|e| Fail::new(format!("harness: {}", e), json!({"infrastructure": true})))?;
+            let spec = json!({"fd_threads": threads, "fd_depth": depth, "dir": dir.display().to_string()});
+            let res = super::c09::run_child_with(&spec, &dir, 120, &format!("ulimit -n {}; ", nofile));
+            let res = res.map_err(|e| Fail::new(format!("harness: {}", e), json!({"infrastructure": true})))?;
+            let _ = std::fs::remove_dir_all(&dir);
+            return match res {
+                super::c09::ChildResult::Json(v) => {
+                    if v["alone_ok"].as_bool() != Some(true) {
+                        return Err(Fail::new(format!("harness: the include chain of depth {} fails alone under {} descriptors", depth, nofile), json!({"infrastructure": true})));
+                    }
+                    let n = v["concurrent_differences"].as_u64().unwrap_or(0);
+                    if n > 0 {
+                        return Err(Fail::new(
+                            format!("{} of {} concurrent calls over a legal include chain of depth {} differ from the call run alone (open-file limit {}): {}", n, threads * 5, depth, nofile, v["first"]),
+                            json!({"threads": threads, "depth": depth, "nofile": nofile}),
+                        ));
+                    }
+                    st.class("concurrent include chains under a low open-file limit");
+                    st.nontrivial(digest(format!("{}-{}-{}", threads, depth, nofile).as_bytes()), || json!({"campaign": campaign, "threads": threads, "depth": depth, "nofile": nofile}));
+                    Ok(())
+                }
+                super::c09::ChildResult::Crashed(s) => Err(Fail::new(format!("the child running {} concurrent calls crashed ({})", threads, s), json!({}))),
+                super::c09::ChildResult::TimedOut => Err(Fail::new("harness: fd-pressure child timed out", json!({"infrastructure": true}))),
+            };
+        }
         st.eval();
         let pool = calls::pool(&ctx.scratch);
         let nthreads = 2 + t.below(15);
